@@ -63,7 +63,7 @@ META = dict(
          'implementation uses the 2-ulp rule of C01; oracle comparisons on the implementation alone are exact.',
 )
 
-SLICES = ['[0]', '[1]', '[-1]', '[-2]', '[::2]', '[1:]', '[:-1]', '[::-1]', '[7]', '[99:]', '[2]', '[-3:]', '[1::2]', '[-1::-2]', '[:1]']
+SLICES = ['[0]', '[1]', '[-1]', '[-2]', '[::2]', '[1:]', '[:-1]', '[::-1]', '[7]', '[99:]', '[2]', '[-3:]', '[1::2]', '[-1::-2]', '[:1]', '[1::-1]', '[-2::-1]', '[::-2]', '[2:0:-1]']
 SELECTORS = ['@[0]', '@[-1]', '@[::2]', '@[1:]', '@[9]', '@[1]', '@[::-1]', '@[7:]', '@[-2]', '@[:1]']
 MAX_DEPTH = 6
 QUICK_MAX_SUBSET_VALUES = 5000
@@ -691,6 +691,9 @@ EXTRA_SHAPES = [
     # sequences inside replications, repeated ids at one level
     ([102003, 301011, 12001, 12001, 1001, 12001], {}, 'repeated-ids'),
     ([301011, 301011, 103002, 4001, 4001, 4002], {}, 'repeated-ids'),
+    ([1001, 1001, 1001, 1002, 1001], {}, 'repeated-ids'),
+    ([104002, 12001, 12001, 12001, 12001, 301011, 301011, 301011], {}, 'repeated-ids'),
+    ([204002, 31021, 204003, 31021, 204001, 31021, 12001, 12001, 204000, 204000, 204000], {}, 'repeated-ids'),
 ]
 
 
